@@ -46,8 +46,10 @@ import (
 
 	"github.com/tendermint/tendermint/crypto"
 	"github.com/tendermint/tendermint/crypto/ed25519"
+	"github.com/tendermint/tendermint/crypto/secp256k1"
 	cryptoenc "github.com/tendermint/tendermint/crypto/encoding"
 	"github.com/tendermint/tendermint/libs/protoio"
+	pcrypto "github.com/tendermint/tendermint/proto/tendermint/crypto"
 	tmp2p "github.com/tendermint/tendermint/proto/tendermint/p2p"
 )
 
@@ -415,6 +417,7 @@ type c16World struct {
 	ephs    map[string]*c16Eph
 	parties map[string]*c16Party
 	mKey    ed25519.PrivKey
+	kKey    secp256k1.PrivKey // M's key of the OTHER type the wire format can carry
 	zPub    crypto.PubKey
 	pubs    map[string]crypto.PubKey // identity name -> long-term public key
 	keys    []*c16KeyEnt
@@ -538,7 +541,7 @@ func (w *c16World) pubName(pk crypto.PubKey) string {
 	if pk == nil {
 		return "none"
 	}
-	for _, n := range []string{"A", "B", "M", "Z"} {
+	for _, n := range []string{"A", "B", "M", "Z", "K"} {
 		if w.pubs[n].Equals(pk) {
 			return n
 		}
@@ -553,7 +556,7 @@ func (w *c16World) sigName(sig []byte) c16Sig {
 		names = append(names, k)
 	}
 	sort.Strings(names)
-	for _, id := range []string{"A", "B", "M", "Z"} {
+	for _, id := range []string{"A", "B", "M", "Z", "K"} {
 		for _, cn := range names {
 			if w.pubs[id].VerifySignature(w.chalB[cn], sig) {
 				var c c16Chal
@@ -750,11 +753,13 @@ func c16ErrClass(err error) string {
 		return "low_order"
 	case strings.Contains(s, "challenge verification failed"):
 		return "challenge"
+	case strings.Contains(s, "expected ed25519"):
+		return "keytype"
 	case strings.Contains(s, "chunkLength is greater"):
 		return "chunk_length"
 	case strings.Contains(s, "proto") || strings.Contains(s, "wireType") || strings.Contains(s, "message length") ||
 		strings.Contains(s, "expected ed25519") || strings.Contains(s, "toproto") || strings.Contains(s, "fromproto") ||
-		strings.Contains(s, "overflow") || strings.Contains(s, "varint"):
+		strings.Contains(s, "overflow") || strings.Contains(s, "varint") || strings.Contains(s, "invalid size for PubKey"):
 		return "parse"
 	}
 	return "other:" + s
@@ -770,6 +775,8 @@ func newC16World(t *testing.T, out *c16Writer, run int, seed int64, rank map[str
 	w.mKey = sec("M")
 	w.zPub = sec("Z").PubKey() // the private key is dropped: nobody holds it
 	w.pubs["M"], w.pubs["Z"] = w.mKey.PubKey(), w.zPub
+	w.kKey = secp256k1.GenPrivKeySecp256k1([]byte(fmt.Sprintf("c16/%d/%d/K", seed, run)))
+	w.pubs["K"] = w.kKey.PubKey()
 	// ephemeral keys in the byte order the schedule asks for
 	names := []string{"eA", "eB", "eM"}
 	sort.Slice(names, func(i, j int) bool { return rank[names[i]] < rank[names[j]] })
@@ -1062,11 +1069,18 @@ func (w *c16World) mOp(p *c16Party, st c16Step) bool {
 		_, recvName, _ := w.registerExchange(p.eph, rem)
 		ke := w.keyByName(recvName)
 		pub := w.pubs[st.Pub]
-		if ke == nil || pub == nil {
+		if ke == nil || (pub == nil && st.Pub != "U") {
 			return false
 		}
 		var sig []byte
-		if st.Sig.Signer == "M" {
+		if st.Sig.Signer == "K" {
+			// a signature that IS valid under M's secp256k1 key
+			cb := w.chalB[c16J(st.Sig.Msg)]
+			if cb == nil {
+				return false
+			}
+			sig, _ = w.kKey.Sign(cb)
+		} else if st.Sig.Signer == "M" {
 			cb := w.chalB[c16J(st.Sig.Msg)]
 			if cb == nil {
 				return false
@@ -1082,9 +1096,17 @@ func (w *c16World) mOp(p *c16Party, st c16Step) bool {
 			return false
 		}
 		actual := w.sigName(sig) // what goes on the wire, named from the bytes
-		pbpk, err := cryptoenc.PubKeyToProto(pub)
-		if err != nil {
-			panic(err)
+		var pbpk pcrypto.PublicKey
+		switch {
+		case st.Pub == "U" && w.run%2 == 0:
+			// undecodable: the oneof is empty
+		case st.Pub == "U":
+			pbpk = pcrypto.PublicKey{Sum: &pcrypto.PublicKey_Ed25519{Ed25519: make([]byte, 31)}} // wrong length
+		default:
+			var err error
+			if pbpk, err = cryptoenc.PubKeyToProto(pub); err != nil {
+				panic(err)
+			}
 		}
 		bz, err := protoio.MarshalDelimited(&tmp2p.AuthSigMessage{PubKey: pbpk, Sig: sig})
 		if err != nil {
@@ -1391,8 +1413,8 @@ func (w *c16World) randomAttackHandshake() {
 		case r < 3 && mKnows:
 			// M speaks the protocol: own identity with its own signature, or somebody else's
 			_, _, chal := w.registerExchange(p.eph, rem)
-			pubs := []string{"M", "M", "A", "B", "Z"}
-			sigs := []c16Sig{{Signer: "M", Msg: chal}, {Signer: "M", Msg: c16Old}, {Signer: "A", Msg: c16Old}, {Signer: "B", Msg: c16Old}}
+			pubs := []string{"M", "M", "A", "B", "Z", "K", "K", "U"}
+			sigs := []c16Sig{{Signer: "M", Msg: chal}, {Signer: "K", Msg: chal}, {Signer: "M", Msg: c16Old}, {Signer: "A", Msg: c16Old}, {Signer: "B", Msg: c16Old}}
 			for _, x := range []*c16Party{p, q} {
 				for _, f := range x.aframes {
 					if f.Kind == "auth" && f.Sig.Signer != "bad" && (strings.Contains(c16J(f.Key.DH), "eM") || strings.Contains(c16J(f.Key.DH), "zero")) {
